@@ -95,6 +95,9 @@ def observe(kind, heavyness, M2, tmc, x, Q2, interp):
         for (_o, kk, kw) in sf.requests:
             if kk["Q2"] != Q2:
                 problems.append("sub-request at Q2=%r" % kk["Q2"])
+            # the correction of F_flavour is built from structure functions of the SAME flavour (heavyness), only the kind may change
+            if _o.split("_", 1)[1] != sf.obs_name.name.split("_", 1)[1]:
+                problems.append("sub-request for %s inside the correction of %s: another flavour" % (_o, sf.obs_name.name))
         for (name, xx, args, pj) in seen:
             if xx != kin["xi"] or (name in ("h2_ker", "k2_ker") and (not args or args[0] != kin["xi"])):
                 problems.append("kernel %s integrated from %r with args %r (xi = %r)" % (name, xx, args, kin["xi"]))
